@@ -146,6 +146,12 @@ def nearest(p, centres: Dict[Tuple[int, int, int], List[float]], tol: float, lev
     return best if bd < tol else None
 
 
+def delete_when(case: dict) -> str:
+    """when `mesh.delete(addressed operation)` is called: before `mesh.add`, after it (both before any assemble), or after
+    `mesh.assemble()` and followed by `mesh.backport()` (the order of examples/stack/cube.py with the delete moved up)"""
+    return case.get("delete_when") or ("before_add" if case.get("delete_first") else "after_add")
+
+
 def lab(b, t) -> str:
     f = lambda x: "?" if x is None else f"{x[0]}.{x[1]}.{x[2]}"
     return f(b) + "~" + f(t)
@@ -220,7 +226,7 @@ class C19(core.Check):
         "stack cases: Grid of nx x ny (1..5 each) cells with unequal sides, nz (1..4) tiers, extruded / revolved / "
         "transformed (translation + twist), random rigid placement; observed are all of stack.grid, stack.operations, "
         "get_slice for every axis 0..2 and every index 0..size (size itself: IndexError), and the blocks written after "
-        "Mesh.delete of one addressed operation, the corner points of every addressed face (un-placed) and the operations chopped by "
+        "Mesh.delete of one addressed operation (called before add, after add, or after assemble() and followed by backport()), the corner points of every addressed face (un-placed) and the operations chopped by "
         "Stack.chop. round cases: each of 15 sketch classes and 11 + 9 shape constructions in a "
         "random placement and size. Non-trivial = every case (sizes 1x1x1 included as boundary); distinct = different "
         "sizes/kind/placement. The thorough tier enumerates all 5 x 5 x 4 sizes for each of the three stack kinds."
@@ -281,7 +287,10 @@ class C19(core.Check):
             case["shift"] = [n[d] * h + 0.05 * ((d + 1) % 3) for d in range(3)]
             case["twist"] = round(rng.uniform(-0.3, 0.3), 3)
         case["delete"] = [rng.randrange(nx), rng.randrange(ny), rng.randrange(nz)]
-        case["delete_first"] = rng.random() < 0.3  # mesh.delete(op) before mesh.add(stack)
+        # mesh.delete(op) before mesh.add(stack) / after it / after assemble() and before backport()
+        case["delete_when"] = rng.choice(["before_add", "after_add", "after_add", "after_assemble", "after_assemble"])
+        if case["delete_when"] == "after_assemble" and rng.random() < 0.5:
+            case["uniform_chops"] = True
         if nx * ny * nz <= 12 and rng.random() < 0.4:
             # the mesh also holds a translated copy of the stack (deep copies of the operations)
             case["copy"] = [30.0 + rng.randrange(5), -20.0, 10.0 + rng.randrange(3)]
@@ -303,7 +312,7 @@ class C19(core.Check):
                     for ny in range(1, 6):
                         for nz in range(1, 5):
                             cases.append(self._stack_case(rng, nx, ny, nz, kind))
-        for n in range(9 if tier == "quick" else 60):
+        for n in range(9 if tier == "quick" else 36):
             shape = ["RevolvedRing", "ExtrudedRing", "Cylinder"][n % 3]
             cases.append(
                 {
@@ -311,12 +320,12 @@ class C19(core.Check):
                     "shape": shape,
                     "n": rng.choice([4, 5, 8, 12]),
                     "s": rng.randrange(12),
-                    "delete_first": rng.random() < 0.3,
+                    "delete_when": rng.choice(["before_add", "after_add", "after_assemble"]),
                     "placement": self._placement(rng),
                     "radius": round(rng.uniform(0.5, 2.0), 2),
                 }
             )
-        reps = 2 if tier == "quick" else 12
+        reps = 2 if tier == "quick" else 6
         for _ in range(reps):
             for name in SKETCHES:
                 cases.append({"kind": "sketch", "name": name, "placement": self._placement(rng), "radius": round(rng.uniform(0.5, 2.0), 2)})
@@ -365,12 +374,15 @@ class C19(core.Check):
         mesh = cb.Mesh()
         addressed = shape.shell[case["s"] % len(shape.shell)]
         s_index = [i for i, op in enumerate(ops) if op is addressed][0]
-        if case.get("delete_first"):
+        when = delete_when(case)
+        if when == "before_add":
             mesh.delete(addressed)
             mesh.add(shape)
+        elif when == "after_add":
+            mesh.add(shape)
+            mesh.delete(addressed)
         else:
             mesh.add(shape)
-            mesh.delete(addressed)
 
         def block_centres(off=(0.0, 0.0, 0.0)) -> Any:
             fd, path = tempfile.mkstemp(prefix="cbv-c19-")
@@ -391,6 +403,10 @@ class C19(core.Check):
 
         res = []
         try:
+            if when == "after_assemble":
+                mesh.assemble()
+                mesh.delete(addressed)
+                mesh.backport()
             res.append(block_centres())
             mesh.backport()
             res.append(block_centres())
@@ -474,15 +490,21 @@ class C19(core.Check):
                 for ii in range(nx):
                     op = stack.grid[kk][jj][ii]
                     op.set_cell_zone(f"z{ii}_{jj}_{kk}")
-                    op.chop(0, count=2 + ii)
-                    op.chop(1, count=7 + jj)
-                    op.chop(2, count=13 + kk)
+                    if case.get("uniform_chops"):
+                        # the same count everywhere: blocks that end up over another cell still grade, so they are *seen* there
+                        for axis in range(3):
+                            op.chop(axis, count=2)
+                    else:
+                        op.chop(0, count=2 + ii)
+                        op.chop(1, count=7 + jj)
+                        op.chop(2, count=13 + kk)
         # optionally a translated copy of the whole stack in the same mesh (its operations are deep copies)
         shift = case.get("copy")
         other = stack.copy().translate(shift) if shift else None
         mesh = cb.Mesh()
         target = (other if (other is not None and case.get("delete_in") == "copy") else stack).grid[k][j][i]
-        if case.get("delete_first"):
+        when = delete_when(case)
+        if when == "before_add":
             mesh.delete(target)  # add() and delete() only collect input for assemble(): their order does not matter
         mesh.add(stack)
         if other is not None:
@@ -519,8 +541,14 @@ class C19(core.Check):
 
         round_trips: List[Any] = []
         try:
-            if not case.get("delete_first"):
+            if when == "after_add":
                 mesh.delete(target)
+            elif when == "after_assemble":
+                # the blocks exist already when the operation is deleted; backport() updates the operations from the blocks
+                # (each from its own) and re-assembles without the deleted one
+                mesh.assemble()
+                mesh.delete(target)
+                mesh.backport()
             deleted, attrs = blocks_of(write_text())
             # the deletion must survive backport() and clear() + assemble()
             try:
@@ -813,14 +841,15 @@ class C19(core.Check):
                 if not m:
                     continue
                 ii, jj, kk = (int(x) for x in m.groups())
-                if zone != f"z{ii}_{jj}_{kk}" or counts != [2 + ii, 7 + jj, 13 + kk]:
+                want_counts = [2, 2, 2] if case.get("uniform_chops") else [2 + ii, 7 + jj, 13 + kk]
+                if zone != f"z{ii}_{jj}_{kk}" or counts != want_counts:
                     out.append(
                         {
                             "site": "Mesh.delete:stack-operation:other-block-changed",
                             "what": f"after delete(grid[{k}][{j}][{i}]) the block over cell {ii}.{jj}.{kk} is written with zone "
-                            f"'{zone}' and counts {counts}; its operation has zone 'z{ii}_{jj}_{kk}' and counts {[2 + ii, 7 + jj, 13 + kk]}",
+                            f"'{zone}' and counts {counts}; its operation has zone 'z{ii}_{jj}_{kk}' and counts {want_counts}",
                             "observed": [zone, counts],
-                            "expected": [f"z{ii}_{jj}_{kk}", [2 + ii, 7 + jj, 13 + kk]],
+                            "expected": [f"z{ii}_{jj}_{kk}", want_counts],
                         }
                     )
                     break
@@ -835,12 +864,15 @@ class C19(core.Check):
                     expected = expected + ["c:" + o for o in allops]
             if not isinstance(left, list) or sorted(left) != sorted(expected):
                 site = "Mesh.delete:stack-operation:wrong-blocks-left"
+                if delete_when(case) == "after_assemble":
+                    site = "Mesh.delete:stack-operation:deleted-after-assemble:wrong-blocks-after-backport"
                 if case.get("copy") and isinstance(left, list) and len(left) < len(expected):
                     site = "Mesh.delete:stack-operation:copy-sibling-deleted-too"
                 out.append(
                     {
                         "site": site,
-                        "what": f"delete({where}[{k}][{j}][{i}]) leaves {impl['deleted']}",
+                        "what": f"delete({where}[{k}][{j}][{i}]) ({delete_when(case).replace('_', ' ')}"
+                        f"{', then backport' if delete_when(case) == 'after_assemble' else ''}) leaves the blocks over {impl['deleted']}",
                         "expected": expected,
                     }
                 )
@@ -865,6 +897,8 @@ class C19(core.Check):
             for how, got in zip(("delete", "backport", "clear-assemble", "backport-translate-assemble"), impl["blocks"]):
                 if not isinstance(got, list) or sorted(got) != expected:
                     site = f"Mesh.delete:{case['shape']}.shell:wrong-blocks-after-{how}"
+                    if how == "delete" and delete_when(case) == "after_assemble":
+                        site = f"Mesh.delete:{case['shape']}.shell:deleted-after-assemble:wrong-blocks-after-backport"
                     if isinstance(got, list) and len(got) < len(expected) and how == "delete":
                         site = f"Mesh.delete:{case['shape']}.shell:copy-sibling-deleted-too"
                     out.append(
